@@ -81,7 +81,7 @@ fn run(ops: &str, out: &str, stats_path: Option<&str>) {
                 }
                 None => "bad-op".into(),
             },
-            "sqlck" | "sqltbl" => match case05.as_mut() {
+            "sqlck" | "sqltbl" | "sqledge" => match case05.as_mut() {
                 Some(c) => match std::panic::catch_unwind(std::panic::AssertUnwindSafe(|| c05::step_sql(c, &kind, &kv, &mut stats))) {
                     Ok(l) => l,
                     Err(_) => {
